@@ -1,12 +1,12 @@
 """C02 plan."""
-from plan import R, D, stages
+from plan import R, D, T, stages
 import fuzzstage
 
 PLAN = dict(
     extra={"thorough": [fuzzstage.diff_stage(0, "C02")]},
     **stages(
-        quick=[(R, "quick", 16), (D, "small", 16)],
-        thorough=[(R, "thorough", 16), (D, "quick", 16)],
+        quick=[(R, "quick", 16), (D, "small", 16), (T, "small", 16)],
+        thorough=[(R, "thorough", 16), (D, "quick", 16), (T, "quick", 16)],
     ),
     rule=("a case is one pattern text 'BASE op V [op V ...]' (0-4 operators in any order, empty bounds, bases "
           "with '-', non-ASCII or glob characters, real pkgsrc bases) with 3-8 candidate names whose base is the "
